@@ -12,3 +12,4 @@ import Argot.Props.C12
 import Argot.Props.C01
 import Argot.Props.C14
 import Argot.Props.C02
+import Argot.Props.C10
